@@ -226,7 +226,7 @@ theorem Bd.cancelGet {s : CBelt} (h : Bd s) (tid : Nat) : Bd (s.cancelGet tid).1
     · exact h
 
 
-theorem Bd.fr {s s' : CBelt} (h : Bd s) (f : Fr s s') : Bd s' := h.congr f.getRes f.bind.1 f.bind.2.1 f.ready f.bind.2.2
+theorem Bd.fr {s s' : CBelt} (h : Bd s) (f : Fr s s') : Bd s' := h.congr f.getRes f.bind.1 f.bind.2.1 f.ready f.bind.2.2.1
 
 /-- nothing the binding reads has changed -/
 structure GF (s s' : CBelt) : Prop where
